@@ -20,7 +20,8 @@ TiiEv == /\ Rec[l].ev = "Tii" /\ UNCHANGED <<seen, nUsed>>
                    ELSE IF ~RequiredIsDeclared(e)
                         THEN Flag("required-not-declared", [missing |-> SetOf(e.required) \ Declared(e)])
                    ELSE IF ~NoCollapse(e) THEN Flag("names-collapse", [tx |-> e.tx])
-                   ELSE IF ~UsedAreRequired(e, nUsed) THEN Flag("used-not-required", [tx |-> e.tx])
+                   \* (the number of names used is modelled for the transaction `transfer` only; a program may hold others)
+                   ELSE IF e.tx = "transfer" /\ ~UsedAreRequired(e, nUsed) THEN Flag("used-not-required", [tx |-> e.tx])
                    ELSE IF ~e.tir_matches THEN Flag("tir-differs-from-lowering", [tx |-> e.tx])
                    ELSE bad
 Next == l <= Len(Rec) /\ l' = l + 1 /\ (Reset \/ CaseEv \/ BuiltEv \/ TiiEv)
